@@ -338,7 +338,7 @@ func (g *c15Gen2) anyUser() int { return g.r.Intn(nUsers) }
 
 func (g *c15Gen2) pickDenom() (string, *shadowDenom) {
 	r := g.r
-	if len(g.denoms) > 0 && r.Chance(70, 100) {
+	if len(g.denoms) > 0 && r.Chance(78, 100) {
 		d := g.denoms[r.Intn(len(g.denoms))]
 		return d.denom, d
 	}
@@ -391,7 +391,7 @@ func (g *c15Gen2) pickDenom() (string, *shadowDenom) {
 func (g *c15Gen2) pickSender(sd *shadowDenom) int {
 	r := g.r
 	if sd != nil {
-		switch r.Pick(55, 20, 25) {
+		switch r.Pick(64, 16, 20) {
 		case 0:
 			if sd.admin >= 0 {
 				return sd.admin
@@ -462,11 +462,14 @@ func (g *c15Gen2) op() c15Op {
 	case 2:
 		d, sd := g.pickDenom()
 		op := c15Op{T: "burn", Sender: g.pickSender(sd), Denom: d, Amt: g.amount(), Target: g.target()}
-		if sd != nil && len(sd.holders) > 0 && r.Chance(2, 3) {
+		if sd != nil && len(sd.holders) > 0 && r.Chance(3, 4) {
 			op.Target = sd.holders[r.Intn(len(sd.holders))] // burn from somebody who holds the coin
+			if op.Target == fmt.Sprintf("@%d", op.Sender) && r.Chance(1, 2) {
+				op.Target = ""
+			}
 		}
-		if r.Chance(2, 3) && op.Amt > 30 {
-			op.Amt = int64(r.Range(1, 30))
+		if r.Chance(3, 4) && op.Amt > 15 {
+			op.Amt = int64(r.Range(1, 15))
 		}
 		return op
 	case 3:
@@ -539,12 +542,23 @@ func genC15Case(r *Rng) c15Case {
 			g.denoms = append(g.denoms, sd)
 		}
 	}
-	n := r.Range(4, 12)
+	n := r.Range(5, 13)
 	// most histories open with a creation so that there is an authority relation to talk about
 	if r.Chance(85, 100) {
 		s := g.anyUser()
 		cs.Ops = append(cs.Ops, c15Op{T: "create", Sender: s, Sub: subs[r.Intn(4)]})
-		g.denoms = append(g.denoms, &shadowDenom{denom: fmt.Sprintf("tf/@%d/%s", s, cs.Ops[0].Sub), admin: s})
+		sd := &shadowDenom{denom: fmt.Sprintf("tf/@%d/%s", s, cs.Ops[0].Sub), admin: s}
+		g.denoms = append(g.denoms, sd)
+		// … and usually puts coins into circulation (own account and somebody else's)
+		if r.Chance(85, 100) {
+			cs.Ops = append(cs.Ops, c15Op{T: "mint", Sender: s, Denom: sd.denom, Amt: int64(r.Range(40, 200))})
+			sd.holders = append(sd.holders, fmt.Sprintf("@%d", s))
+			if r.Chance(2, 3) {
+				h := fmt.Sprintf("@%d", r.Intn(nUsers))
+				cs.Ops = append(cs.Ops, c15Op{T: "mint", Sender: s, Denom: sd.denom, Amt: int64(r.Range(40, 200)), Target: h})
+				sd.holders = append(sd.holders, h)
+			}
+		}
 	}
 	for len(cs.Ops) < n {
 		cs.Ops = append(cs.Ops, g.op())
